@@ -24,6 +24,7 @@ import SarpyModel.Drivers.Kernels2
 import SarpyModel.Drivers.Loops
 import SarpyModel.Drivers.LoopsChip
 import SarpyModel.Drivers.LoopsSidd
+import SarpyModel.Drivers.NitfAssembly
 import SarpyModel.Drivers.Tre
 namespace Sarpy.Drivers
 
@@ -56,6 +57,7 @@ def step (line : String) : String :=
   | "loops" :: rest => (loopsStep rest).getD "bad-op"
   | "loopsc" :: rest => (loopscStep rest).getD "bad-op"
   | "loopss" :: rest => (loopssStep rest).getD "bad-op"
+  | "nitfasm" :: rest => (nitfasmStep rest).getD "bad-op"
   | "tre" :: rest => (treStep rest).getD "bad-op"
   | _ => "bad-op"
 
